@@ -488,6 +488,10 @@ def check(run):
                 un = fitted(cols, k, range_type="relative cp",
                             range_x=[1e-3, 2e-3], **kw)
                 states["unsuccessful"] = un
+                # the retract segment fitted: the features still describe
+                # the approach segment (NaN where they need its fit)
+                states["retract-fitted"] = fitted(cols, k, segment="retract",
+                                                  **kw)
                 if run.tier != "quick":
                     states["fitted-weighted"] = fitted(
                         cols, k, weight_cp=5e-7, range_x=[-2e-6, 2e-6], **kw)
